@@ -4,7 +4,7 @@
    functions (state root, commit id, artifact ids, shell digest).
    PARTIAL by design (see props/c15.py): braid shell bodies, member blinding and retention posture
    are exercised by the tie, not modelled. *)
-From Coq Require Import List NArith Bool.
+From Coq Require Import List NArith Bool Lia.
 From Echo Require Import Base.FinMap Model.Strand Proofs.StrandProofs.
 Import ListNotations.
 Open Scope N_scope.
@@ -120,3 +120,188 @@ Check strands_stay_wellformed : forall Hroot Hcommit w,
   (forall q w', fork_steps Hroot w q = Ok w' -> wf_strands (fst w')) /\
   (forall hk p w', tick Hroot Hcommit w hk p = Ok w' -> wf_strands (fst w')).
 Print Assumptions strands_stay_wellformed.
+
+(* The plan is a value computed from the strand record, the two frontiers and the two histories and from nothing
+   else (it returns no state): two worlds that agree on those give the same plan, whatever else differs. *)
+Theorem plan_pure_deterministic : forall Hroot Hart Hplural w1 w2 sid pol,
+  alookup sid (rt_strands (fst w1)) = alookup sid (rt_strands (fst w2)) ->
+  (forall s, alookup sid (rt_strands (fst w1)) = Some s ->
+     alookup (st_src s) (rt_lanes (fst w1)) = alookup (st_src s) (rt_lanes (fst w2)) /\
+     alookup (st_child s) (rt_lanes (fst w1)) = alookup (st_child s) (rt_lanes (fst w2)) /\
+     alookup (st_src s) (pv_lanes (snd w1)) = alookup (st_src s) (pv_lanes (snd w2)) /\
+     alookup (st_child s) (pv_lanes (snd w1)) = alookup (st_child s) (pv_lanes (snd w2))) ->
+  plan Hroot Hart Hplural w1 sid pol = plan Hroot Hart Hplural w2 sid pol.
+Proof. exact plan_frame. Qed.
+Check plan_pure_deterministic : forall Hroot Hart Hplural w1 w2 sid pol,
+  alookup sid (rt_strands (fst w1)) = alookup sid (rt_strands (fst w2)) ->
+  (forall s, alookup sid (rt_strands (fst w1)) = Some s ->
+     alookup (st_src s) (rt_lanes (fst w1)) = alookup (st_src s) (rt_lanes (fst w2)) /\
+     alookup (st_child s) (rt_lanes (fst w1)) = alookup (st_child s) (rt_lanes (fst w2)) /\
+     alookup (st_src s) (pv_lanes (snd w1)) = alookup (st_src s) (pv_lanes (snd w2)) /\
+     alookup (st_child s) (pv_lanes (snd w1)) = alookup (st_child s) (pv_lanes (snd w2))) ->
+  plan Hroot Hart Hplural w1 sid pol = plan Hroot Hart Hplural w2 sid pol.
+Print Assumptions plan_pure_deterministic.
+
+(* All-or-nothing execution: a settlement that returns an error (at any decision, or at the final shell append)
+   leaves runtime and provenance exactly as they were. *)
+Theorem settle_atomic : forall Hroot Hcommit Hart Hplural Hshell w sid pol e,
+  snd (settle Hroot Hcommit Hart Hplural Hshell w sid pol) = Err e ->
+  fst (settle Hroot Hcommit Hart Hplural Hshell w sid pol) = w.
+Proof. exact settle_atomic_lemma. Qed.
+Check settle_atomic : forall Hroot Hcommit Hart Hplural Hshell w sid pol e,
+  snd (settle Hroot Hcommit Hart Hplural Hshell w sid pol) = Err e ->
+  fst (settle Hroot Hcommit Hart Hplural Hshell w sid pol) = w.
+Print Assumptions settle_atomic.
+
+(* A slot the parent wrote since the fork keeps the parent's value through a successful settlement, provided the
+   strand's patches declare their writes to such slots (honest_on; implied by honest_slots). *)
+Theorem never_overwrite : forall Hroot Hcommit Hart Hplural Hshell w sid pol w' out s pfr pfr' pes ces x,
+  settle Hroot Hcommit Hart Hplural Hshell w sid pol = (w', Ok out) ->
+  alookup sid (rt_strands (fst w)) = Some s -> st_child s <> st_src s ->
+  entries_of (snd w) (st_src s) = Some pes -> entries_of (snd w) (st_child s) = Some ces ->
+  coherent (st_child s) ces ->
+  alookup (st_src s) (rt_lanes (fst w)) = Some pfr ->
+  alookup (st_src s) (rt_lanes (fst w')) = Some pfr' ->
+  honest_on (parent_writes (skipnN (st_fork_tick s + 1) pes)) (skipnN (st_fork_tick s + 1) ces) ->
+  memN x (parent_writes (skipnN (st_fork_tick s + 1) pes)) = true ->
+  sget (f_state pfr') x = sget (f_state pfr) x.
+Proof. exact never_overwrite_lemma. Qed.
+Check never_overwrite : forall Hroot Hcommit Hart Hplural Hshell w sid pol w' out s pfr pfr' pes ces x,
+  settle Hroot Hcommit Hart Hplural Hshell w sid pol = (w', Ok out) ->
+  alookup sid (rt_strands (fst w)) = Some s -> st_child s <> st_src s ->
+  entries_of (snd w) (st_src s) = Some pes -> entries_of (snd w) (st_child s) = Some ces ->
+  coherent (st_child s) ces ->
+  alookup (st_src s) (rt_lanes (fst w)) = Some pfr ->
+  alookup (st_src s) (rt_lanes (fst w')) = Some pfr' ->
+  honest_on (parent_writes (skipnN (st_fork_tick s + 1) pes)) (skipnN (st_fork_tick s + 1) ces) ->
+  memN x (parent_writes (skipnN (st_fork_tick s + 1) pes)) = true ->
+  sget (f_state pfr') x = sget (f_state pfr) x.
+Print Assumptions never_overwrite.
+
+(* Where the parent still agrees with the strand's fork state on a slot, the settled parent carries on that slot
+   the value the strand had after its imported prefix (so in particular every slot written by an imported entry
+   and untouched by the parent takes the strand's value). *)
+Theorem import_takes_strand_values : forall Hroot Hcommit Hart Hplural Hshell w sid pol w' out s pfr pfr' ces x cst0 cstn,
+  settle Hroot Hcommit Hart Hplural Hshell w sid pol = (w', Ok out) ->
+  alookup sid (rt_strands (fst w)) = Some s -> st_child s <> st_src s ->
+  entries_of (snd w) (st_child s) = Some ces -> coherent (st_child s) ces ->
+  alookup (st_src s) (rt_lanes (fst w)) = Some pfr ->
+  alookup (st_src s) (rt_lanes (fst w')) = Some pfr' ->
+  sget (f_state pfr) x = sget cst0 x ->
+  apply_entries cst0 (firstn (n_imports (pl_decisions (so_plan out))) (skipnN (st_fork_tick s + 1) ces)) = Some cstn ->
+  sget (f_state pfr') x = sget cstn x.
+Proof. exact import_takes_strand_values_lemma. Qed.
+Check import_takes_strand_values : forall Hroot Hcommit Hart Hplural Hshell w sid pol w' out s pfr pfr' ces x cst0 cstn,
+  settle Hroot Hcommit Hart Hplural Hshell w sid pol = (w', Ok out) ->
+  alookup sid (rt_strands (fst w)) = Some s -> st_child s <> st_src s ->
+  entries_of (snd w) (st_child s) = Some ces -> coherent (st_child s) ces ->
+  alookup (st_src s) (rt_lanes (fst w)) = Some pfr ->
+  alookup (st_src s) (rt_lanes (fst w')) = Some pfr' ->
+  sget (f_state pfr) x = sget cst0 x ->
+  apply_entries cst0 (firstn (n_imports (pl_decisions (so_plan out))) (skipnN (st_fork_tick s + 1) ces)) = Some cstn ->
+  sget (f_state pfr') x = sget cstn x.
+Print Assumptions import_takes_strand_values.
+
+(* ... and the agreement assumed above is what an honest parent suffix gives off its declared writes. *)
+Theorem parent_unchanged_off_its_writes : forall moved st0 st x,
+  apply_entries st0 moved = Some st -> honest_slots moved ->
+  memN x (parent_writes moved) = false -> sget st x = sget st0 x.
+Proof. exact unchanged_off_writes. Qed.
+Check parent_unchanged_off_its_writes : forall moved st0 st x,
+  apply_entries st0 moved = Some st -> honest_slots moved ->
+  memN x (parent_writes moved) = false -> sget st x = sget st0 x.
+Print Assumptions parent_unchanged_off_its_writes.
+
+(* The parent stays verifiable from its own history: if its history replayed (recorded roots checked) to its live
+   state before, the extended history (one entry per decision) replays to the settled live state. *)
+Theorem parent_stays_verifiable : forall Hroot Hcommit Hart Hplural Hshell w sid pol w' out s pfr pes,
+  settle Hroot Hcommit Hart Hplural Hshell w sid pol = (w', Ok out) ->
+  alookup sid (rt_strands (fst w)) = Some s ->
+  alookup (st_src s) (rt_lanes (fst w)) = Some pfr -> entries_of (snd w) (st_src s) = Some pes ->
+  replay_entries Hroot (f_init pfr) pes = Some (f_state pfr) ->
+  exists pfr' pes' extra,
+    alookup (st_src s) (rt_lanes (fst w')) = Some pfr' /\ entries_of (snd w') (st_src s) = Some pes' /\
+    pes' = pes ++ extra /\ lenN extra = lenN (pl_decisions (so_plan out)) /\
+    f_init pfr' = f_init pfr /\ f_tick pfr' = f_tick pfr + lenN extra /\
+    replay_entries Hroot (f_init pfr') pes' = Some (f_state pfr').
+Proof. exact parent_stays_verifiable_lemma. Qed.
+Check parent_stays_verifiable : forall Hroot Hcommit Hart Hplural Hshell w sid pol w' out s pfr pes,
+  settle Hroot Hcommit Hart Hplural Hshell w sid pol = (w', Ok out) ->
+  alookup sid (rt_strands (fst w)) = Some s ->
+  alookup (st_src s) (rt_lanes (fst w)) = Some pfr -> entries_of (snd w) (st_src s) = Some pes ->
+  replay_entries Hroot (f_init pfr) pes = Some (f_state pfr) ->
+  exists pfr' pes' extra,
+    alookup (st_src s) (rt_lanes (fst w')) = Some pfr' /\ entries_of (snd w') (st_src s) = Some pes' /\
+    pes' = pes ++ extra /\ lenN extra = lenN (pl_decisions (so_plan out)) /\
+    f_init pfr' = f_init pfr /\ f_tick pfr' = f_tick pfr + lenN extra /\
+    replay_entries Hroot (f_init pfr') pes' = Some (f_state pfr').
+Print Assumptions parent_stays_verifiable.
+
+(* The coordinate coherence assumed above (entry i of lane l says (l, i)) is an invariant of ticks, forks and
+   settlements. *)
+Theorem histories_stay_coherent : forall Hroot Hcommit Hart Hplural Hshell w,
+  coherent_prov (snd w) ->
+  (forall hk p w', tick Hroot Hcommit w hk p = Ok w' -> coherent_prov (snd w')) /\
+  (forall q w', fork_steps Hroot w q = Ok w' -> coherent_prov (snd w')) /\
+  (forall sid pol w' out, settle Hroot Hcommit Hart Hplural Hshell w sid pol = (w', Ok out) -> coherent_prov (snd w')).
+Proof. exact coherent_preserved. Qed.
+Check histories_stay_coherent : forall Hroot Hcommit Hart Hplural Hshell w,
+  coherent_prov (snd w) ->
+  (forall hk p w', tick Hroot Hcommit w hk p = Ok w' -> coherent_prov (snd w')) /\
+  (forall q w', fork_steps Hroot w q = Ok w' -> coherent_prov (snd w')) /\
+  (forall sid pol w' out, settle Hroot Hcommit Hart Hplural Hshell w sid pol = (w', Ok out) -> coherent_prov (snd w')).
+Print Assumptions histories_stay_coherent.
+
+(* Non-vacuity.  One concrete run: a base tick, a fork at tick 0, a parent tick writing slot 13, and three
+   strand ticks -- disjoint (writes 15), read-overlapping (reads 13, writes 11) and write-overlapping with a
+   different value (writes 13).  The plan imports the first two (the second after a clean revalidation of slot
+   13) and keeps the third as conflict residue; every hypothesis of the theorems above holds of this world; the
+   parent keeps its own 13 and takes the strand's 15 and 11; and with the plural ids pre-bound the same
+   settlement under the plural policy fails at the shell and changes nothing. *)
+Definition ex_init : list (slot * value) := [(10, 1); (12, 1); (14, 1)].
+Definition ex_steps : list step :=
+  [ STick [((0, 0), mkPatch [10; 11] [11] [mkOp [10] [(11, Some 1)]])];
+    SFork (mkForkReq 0 0 0 1 [(1, 0)] true);
+    STick [((0, 0), mkPatch [12; 13] [13] [mkOp [12] [(13, Some 5)]])];
+    STick [((1, 0), mkPatch [14; 15] [15] [mkOp [14] [(15, Some 7)]])];
+    STick [((1, 0), mkPatch [10; 11; 13] [11] [mkOp [10] [(11, Some 2)]])];
+    STick [((1, 0), mkPatch [12; 13] [13] [mkOp [12] [(13, Some 9)]])] ].
+Definition ex_w : world := world_c ex_init ex_steps.
+
+Example c15_nonvacuous :
+  exists s pfr pes ces w' out pfr',
+    alookup 0 (rt_strands (fst ex_w)) = Some s /\ st_child s <> st_src s /\ wf_strands (fst ex_w) /\
+    entries_of (snd ex_w) (st_src s) = Some pes /\ entries_of (snd ex_w) (st_child s) = Some ces /\
+    coherent (st_child s) ces /\ coherent_prov (snd ex_w) /\
+    honest_slots (skipnN (st_fork_tick s + 1) ces) /\ honest_slots (skipnN (st_fork_tick s + 1) pes) /\
+    alookup (st_src s) (rt_lanes (fst ex_w)) = Some pfr /\
+    replay_entries c_root (f_init pfr) pes = Some (f_state pfr) /\
+    settle_c ex_w 0 (mkPolicy 1 false) = (w', Ok out) /\
+    map dec_obs (pl_decisions (so_plan out)) = [(1, 1, 0, 0, []); (1, 2, 0, 1, [13]); (2, 3, 4, 3, [13])] /\
+    alookup (st_src s) (rt_lanes (fst w')) = Some pfr' /\
+    parent_writes (skipnN (st_fork_tick s + 1) pes) = [13] /\
+    (sget (f_state pfr) 13, sget (f_state pfr') 13, sget (f_state pfr') 15, sget (f_state pfr') 11)
+      = (Some 5, Some 5, Some 7, Some 2) /\
+    (* injected late failure under the plural policy: an error and an unchanged world *)
+    (let wi := fst (prebind c_root c_art c_plural ex_w 0 (mkPolicy 2 true) 0) in
+     snd (settle_c wi 0 (mkPolicy 2 true)) = Err EShell /\ fst (settle_c wi 0 (mkPolicy 2 true)) = wi).
+Proof.
+  do 7 eexists.
+  split; [vm_compute; reflexivity|].
+  split; [vm_compute; discriminate|].
+  split; [apply wf_strandsb_spec; vm_compute; reflexivity|].
+  split; [vm_compute; reflexivity|].
+  split; [vm_compute; reflexivity|].
+  split; [apply coherentb_spec; vm_compute; reflexivity|].
+  split; [apply coherent_provb_spec; vm_compute; reflexivity|].
+  split; [apply honest_slotsb_spec; vm_compute; reflexivity|].
+  split; [apply honest_slotsb_spec; vm_compute; reflexivity|].
+  split; [vm_compute; reflexivity|].
+  split; [vm_compute; reflexivity|].
+  split; [vm_compute; reflexivity|].
+  split; [vm_compute; reflexivity|].
+  split; [vm_compute; reflexivity|].
+  split; [vm_compute; reflexivity|].
+  split; [vm_compute; reflexivity|].
+  cbv zeta. split; vm_compute; reflexivity.
+Qed.
